@@ -62,7 +62,7 @@ Grow == /\ ph = "item" /\ lvl < Depth
 
 Forms == {"wrap", "long", "lz"}
 MutS == /\ ph = "item"
-        /\ \E p \in Paths(x), f \in Forms :
+        /\ \E p \in Paths(x), f \in Forms \cup {"izero"} :
               /\ FormApplies(At(x, p), f)
               /\ b' = EncAt(x, p, f) /\ ms' = <<<<f, p>>>>
         /\ ph' = "mut" /\ UNCHANGED <<x, lvl>>
